@@ -111,6 +111,7 @@ type FV struct {
 	notes    []string // abstractions performed
 	assumed  map[string]bool
 	fn       *fnCtx
+	bcount   int // counter for unique bound-variable names
 	pure     int // >0: no fresh constants, no obligations (closure-in-spec evaluation)
 	tsub     map[string]types.Type
 	specNames map[string]Val // contract parameter/result names -> values
